@@ -352,8 +352,10 @@ impl<R: Read, TSpec> TagIterator<R, TSpec>
             }
         }
 
-        if (self.allowed_errors & OVERSIZED_CHILD_ERROR == 0) && size.is_known() && self.is_invalid_tag_size(header_len + size.value()) {
-            return Err(TagIteratorError::CorruptedFileData(CorruptedFileError::OversizedChildElement{ position: self.current_offset(), tag_id, size: size.value()}));
+        // An unknown sized tag has no data size to overrun its parents with - but its header has to lie inside of them, too
+        let known_data_size = if let Known(data_size) = size { data_size } else { 0 };
+        if (self.allowed_errors & OVERSIZED_CHILD_ERROR == 0) && self.is_invalid_tag_size(header_len + known_data_size) {
+            return Err(TagIteratorError::CorruptedFileData(CorruptedFileError::OversizedChildElement{ position: self.current_offset(), tag_id, size: known_data_size}));
         }
 
         if let Some(max_size) = self.max_allowed_tag_size {
